@@ -25,6 +25,7 @@ func genAuthE2ECase(t *rapid.T) AuthE2ECase {
 			Method: rapid.SampledFrom([]string{"DESCRIBE", "DESCRIBE", "ANNOUNCE", "SETUP", "OPTIONS"}).Draw(t, "method"),
 			Creds: rapid.SampledFrom([]string{"none", "right", "right", "right", "wrong-pass", "wrong-user", "wrong-nonce", "wrong-realm", "wrong-uri",
 				"other-method", "garbage"}).Draw(t, "creds"),
+			Stale: rapid.IntRange(0, 2).Draw(t, "stale") == 0,
 		}
 		c.Steps = append(c.Steps, s)
 	}
@@ -34,7 +35,7 @@ func genAuthE2ECase(t *rapid.T) AuthE2ECase {
 func TestC10E2E(t *testing.T) {
 	rapid.Check(t, func(rt *rapid.T) {
 		c := genAuthE2ECase(rt)
-		st, err := pbt.Safe(runAuthE2E, c)
+		st, err := pbt.SafeJ("C10", "e2e", runAuthE2E, c)
 		if st == nil {
 			st = &authE2EStats{}
 		}
@@ -42,6 +43,8 @@ func TestC10E2E(t *testing.T) {
 		pbt.Count("C10", "e2e_challenges", int64(st.Challenged))
 		pbt.Count("C10", "e2e_accepted", int64(st.Accepted))
 		pbt.Count("C10", "e2e_rejected_and_closed", int64(st.Rejected))
+		pbt.Count("C10", "e2e_first_request_stale_digest", int64(st.StaleDigest))
+		pbt.Count("C10", "e2e_first_request_preemptive_basic", int64(st.PreemptiveBasic))
 		pbt.Check(rt, "C10", "e2e", c, st.Accepted >= 1 && st.Rejected >= 1, labels, func() error { return err })
 	})
 }
